@@ -277,11 +277,10 @@ def rule_reg_infer(db: ProgramDB) -> List[Instance]:
     out = []
     var = db.cls("Variable")
     sites = []
+    from ..facts import user_type_calls
     for m in var.methods.values():
-        for c in own_calls(m):
-            f = c.func
-            if isinstance(f, ast.Attribute) and f.attr == "_type_" and isinstance(f.value, ast.Name) and f.value.id == "self":
-                sites.append((m, c))
+        for c in user_type_calls(m):
+            sites.append((m, c))
     if not sites:
         raise AnalysisError("no construction `self._type_(…)` found in Variable")
     for m, c in sites:
@@ -489,4 +488,24 @@ def rule_reg_no_probe(db: ProgramDB) -> List[Instance]:
                     f"`{unparse(bad[0])}` looks an attribute up on the instance before its __init__ has run (HashedValue without an identifier probes hasattr(x, '_id_')): "
                     f"a @symbol class with a hand-written __init__ and a delegating __getattr__ raises RecursionError on every concrete construction" if bad else
                     "the instance is wrapped with its identifier given", line=bad[0].lineno if bad else w.lineno))
+    return out
+
+
+def rule_reg_live_conclusions(db: ProgramDB) -> List[Instance]:
+    """(d) of REG-LIVE: a variable that only a conclusion mentions is below no condition; the conclusion's own reset visits the
+    variables of its value."""
+    out = []
+    concl = db.cls("Conclusion")
+    resets = [m for k in [concl] + concl.all_subclasses() for n, m in k.methods.items() if n in ("_reset_cache_", "_reset_only_my_cache_") and m.cls is k]
+    ok = any(any(isinstance(l, ast.For) and any(isinstance(a, ast.Attribute) and a.attr in ("_all_variable_instances_", "_unique_variables_", "_descendants_") for a in ast.walk(l.iter))
+                 and any(isinstance(c, ast.Call) and call_attr(c) in ("_reset_only_my_cache_", "_reset_cache_") for c in ast.walk(l)) for l in own_nodes(m.node))
+             or any(isinstance(c, ast.Call) and call_attr(c) == "_reset_cache_" and "value" in unparse(c.func.value) for c in own_nodes(m.node))
+             for m in resets)
+    # or conclusions do not override the reset at all and their value is linked below them
+    overridden = bool(resets)
+    out.append(inst("REG-LIVE", HOLDS if ok or not overridden else VIOLATION, concl, "Conclusion[the reset reaches the variables of the concluded value]",
+                    "the conclusion's reset visits the variables of its value" if ok else
+                    ("conclusions inherit the recursive reset" if not overridden else
+                     "Conclusion overrides the reset without visiting the variables of its value: a variable declared without a domain that only a conclusion mentions "
+                     "(Add(v, Dr(handle=h)) with h = let(H)) keeps the registry snapshot of the first evaluation")))
     return out
